@@ -7,6 +7,7 @@ import (
 	"errors"
 	"fmt"
 	"io"
+	"math"
 	"os"
 	"runtime"
 	"testing"
@@ -297,7 +298,8 @@ func model(s []byte) (cbs []cbRec, impossible bool, headerInside map[int]bool) {
 		for k := 1; k < 8; k++ {
 			headerInside[pos+k] = true
 		}
-		if size < 8 {
+		if size < 8 || uint64(pos)+uint64(size) > math.MaxUint32 {
+			// a box that cannot exist (also: one that ends beyond the 32-bit offsets the parser reports in ChunkData.Start)
 			return cbs, true, headerInside
 		}
 		if typ == "moov" {
@@ -346,9 +348,11 @@ func runParser(c Case, s []byte) (got []cbRec, err error, rd *partReader, bufLen
 	return got, err, rd, len(p.GetBuffer()), time.Since(t0)
 }
 
-func checkCase(c Case) (*hx.Violation, info) {
+func checkCase(c Case) (*hx.Violation, info) { return checkStream(c, c.stream()) }
+
+// checkStream judges the parser on the byte stream s delivered as the case prescribes (reads, faults).
+func checkStream(c Case, s []byte) (*hx.Violation, info) {
 	var inf info
-	s := c.stream()
 	want, impossible, _ := model(s)
 	inf.impossible = impossible
 	inf.chunks = len(want)
